@@ -141,7 +141,10 @@ CLAIMS["C05"] = _b(
     "parts and no panic site of channel.rs reached (credit_accounting, forwarded_le_granted); a sender within its credit is never "
     "refused, one without credit gets CapacityExhausted (send_within_credit, send_beyond_credit); exactly one ItemReceived, payload "
     "unchanged, in send order (send_delivers_once); a grant is refused exactly on u32 overflow (grant_overflow); claim-once and close "
-    "permission tables (claim_*_once, close_permission, close_no_panic). The broker's low-water constant is regenerated from channel.rs. "
+    "permission tables (claim_*_once, close_permission, close_no_panic); for ALL histories a claimed end is claimed by a connection that "
+    "is still there and lists the channel, and what a connection lists is an end it has claimed "
+    "(claimed_end_is_listed_by_its_connected_owner, connection_lists_only_ends_it_claimed), so a disconnect closes exactly the "
+    "claimed ends of that connection. The broker's low-water constant is regenerated from channel.rs. "
     "The client-side Sender/Receiver of the aldrin crate are not modelled (partial on that clause).", "DESIGN.md section 6 C05")
 CLAIMS["C09"] = _b(
     "Machine-checked proof (Lean 4) of an inductive invariant over ALL histories of broker events, including every way and point of "
@@ -151,8 +154,9 @@ CLAIMS["C09"] = _b(
     "broker_shutdown_queues_all, idle_shutdown_sets_flag); gauges for connections/objects/services (registry_gauges_all_histories); in "
     "every reachable state a call whose caller is no longer connected is marked aborted, so nothing is delivered for it any more "
     "(calls_of_a_removed_connection_are_ended, no_connections_no_live_call; cross-reference invariant of C02); for ALL histories, once "
-    "no connection is left all four registry maps are empty (no_connections_no_objects_no_services; registry invariant of C03). The rest "
-    "of 'no residual state' (channels and listeners of removed connections beyond their gauges, notifications) is decided "
+    "no connection is left all four registry maps, the channel map and the listener map are empty "
+    "(no_connections_no_objects_no_services, no_connections_no_channels_no_listeners; registry invariant of C03, ownership invariant "
+    "of C05) and in every reachable state so is the call table (no_connections_no_calls). That every affected peer is notified is decided "
     "by the correspondence runs: every scenario ends by closing everything (two orders), compares take_statistics with the model, the "
     "model's gauges with its map sizes, and requires Broker::run to finish: partial on those clauses.", "DESIGN.md section 6 C09")
 CLAIMS["C10"] = _b(
@@ -173,7 +177,8 @@ CLAIMS["C11"] = _b(
     "in every turn of Broker::run from every reachable state (remove_call_asserts_hold, by the cross-reference invariant of the call "
     "tables proved for C02; fewer than 2^32 pending calls); in every reachable state the expect(\"inconsistent state\") lookups of "
     "call_function_reply, call_function and remove_service (incl. its loop over the calls the service holds) cannot fail "
-    "(call_reply_lookups_hold, call_function_lookups_hold, remove_service_lookups_hold; registry and callee-side invariants). The "
+    "(call_reply_lookups_hold, call_function_lookups_hold, remove_service_lookups_hold; registry and callee-side invariants), and for "
+    "ALL histories claim_channel_end finds the connection holding the other end (claim_lookup_holds; ownership invariant). The "
     "remaining expect sites (subscription and introspection handlers) are "
     "cross-reference lookups whose unreachability is not proved; they are covered by the 'abuse' profile of the correspondence runs "
     "(panics caught around every poll, the model names the site, liveness probe of every surviving connection): partial.",
